@@ -365,6 +365,42 @@ pub fn run_c08(ctx: &Ctx) -> i32 {
         states += r.states;
         transitions += r.transitions;
     }
+    // global injectivity on complete families: no two distinct positions of F3 (and of the
+    // F4 sub-family) may share a key - this also covers pairs that differ in two components
+    // at once (e.g. a white and a black piece of one kind with swapped squares), which no
+    // single-component neighbourhood contains
+    {
+        use std::collections::HashMap;
+        use std::sync::Mutex;
+        let inj_fams = vec![f3(), f4(vec![(KNIGHT, KNIGHT), (ROOK, ROOK), (PAWN, PAWN)], vec![2, 27], "F4(same-kind pairs, white king c1/d4)")];
+        for (seed, h) in hs.iter().take(if quick { 2 } else { hs.len() }) {
+            let shards: Vec<Mutex<HashMap<u64, Key>>> = (0..256).map(|_| Mutex::new(HashMap::new())).collect();
+            let n = run_families(ctx, &inj_fams, if quick { 2 } else { 1 }, |p, l| {
+                let hv = h.hash(&to_state(p));
+                let k = p.key();
+                l.inc("injectivity_positions");
+                let mut g = shards[(hv >> 56) as usize].lock().unwrap();
+                if let Some(other) = g.get(&hv).copied() {
+                    if other != k {
+                        drop(g);
+                        // rebuild the other position's text from its key
+                        let mut o = Pos::empty();
+                        for i in 0..32 {
+                            o.b[2 * i] = other[i] & 15;
+                            o.b[2 * i + 1] = other[i] >> 4;
+                        }
+                        o.cr = other[32] & 15;
+                        o.wtm = other[32] & 16 != 0;
+                        o.ep = if other[33] == 0 { None } else { Some(other[33] - 1) };
+                        ctx.violation("hash-collision-between-distinct-positions", format!("{} | {}", o.epd(), p.epd()), json!({"a": o.fen(), "b": p.fen(), "seed": seed, "hash": hv}));
+                    }
+                } else {
+                    g.insert(hv, k);
+                }
+            });
+            states += n;
+        }
+    }
     // transpositions: two move orders reaching the same position must hash equal (BFS
     // from the start position by implementation moves, grouped by the model's key)
     {
@@ -403,7 +439,7 @@ pub fn run_c08(ctx: &Ctx) -> i32 {
         (transitions + ctx.get("separation_pairs")).max(1),
         ctx.get("separation_pairs") + ctx.get("equal_pairs"),
         ctx.no_caps(),
-        "every state of the families and BFS spaces x hasher seeds {0,1,2,VERIF_SEED}; must-equal twins (counters changed, reached by a move vs. built directly, transposing move orders) and every single-component legal neighbour (each castling right toggled, ep target with a legal capture removed/added, side flipped; on a strided sub-space and the BFS spaces also every piece moved/removed/recoloured/re-kinded) which must hash differently",
+        "every state of the families and BFS spaces x hasher seeds {0,1,2,VERIF_SEED}; must-equal twins (counters changed, reached by a move vs. built directly, transposing move orders) and every single-component legal neighbour (each castling right toggled, ep target with a legal capture removed/added, side flipped; on a strided sub-space and the BFS spaces also every piece moved/removed/recoloured/re-kinded) which must hash differently; global injectivity of the key on the complete family F3 and a same-kind F4 sub-family (any two distinct positions)",
         &[ASSUME_ORACLE, "a 64-bit chance collision would be reported (and be reproducible from the replay file); none is tolerated silently"],
     )
 }
